@@ -3,13 +3,15 @@ import AvroModel.SchemaGen
 /-!
 # The codec-directed normal form against the type-directed `normSpecD` (C01, M2)
 
-`normCodec` (Lemmas/RoundTrip.lean) is what the codec model reads back; `normSpecD 3` (Sem.lean) is
-the oracle of the differential end-to-end check: the documented normalisations plus the two recorded
-deviations D27 / D30. This file
+`normCodec` (Lemmas/RoundTrip.lean) is what the codec model reads back; `normSpecD` (Sem.lean) is the
+oracle of the differential end-to-end check: the documented normalisations (`dev = 0`) plus the
+recorded deviations D27 / D30 / D32 (`dev = 7`). This file
 
-* records three corners in which the two **disagree** (`*_counterexample`), each with the concrete Go
-  type, the codec the builder model yields for the generated schema, and the value;
-* proves that they agree on a delimited fragment (`normSpec_agrees`).
+* records the corners that were found while proving the agreement: two gaps of the earlier oracle
+  around `**[]T` (now part of `normSpecD`: pointer chains to a slice or map) and one genuine small
+  deviation of the code (D32, zero instant in a non-UTC zone), each with the concrete Go type, the
+  codec the builder model yields for the generated schema, and the value;
+* proves that model and oracle agree on a delimited fragment (`normSpec_agrees`).
 -/
 set_option linter.unusedSimpArgs false
 namespace Avro
@@ -24,7 +26,7 @@ def builtCodec (T : GoType) : Except String Codec :=
   | .ok s => buildCodec libReg 100 s (some T) false
   | _ => .error "schema generation"
 
-/-! ## Disagreements (findings) -/
+/-! ## Corners -/
 
 section
 variable (env : Env)
@@ -34,16 +36,16 @@ def tPP : GoType := .struct "S" "main" [.mk "F" true "" "" (.ptr (.ptr (.slice (
 def cPP : Codec := .record [.ptr none] [.pointer (.pointer (.array (.int 64 false) false))] [some 0]
 theorem cPP_built : builtCodec tPP = .ok cPP := by rfl
 
-/-- **Finding (nil `**[]T`)**: `S{F: nil}` with `F **[]int64` is written as the empty array (the
-schema of `**[]T` is the plain array) and read back as a pointer to a pointer to the empty slice. The
-oracle `normSpecD` (every `dev`) identifies nil with pointer-to-empty for `*[]T` only, so it expects
-`F == nil` back: model round trip and oracle disagree on this type. -/
-theorem nil_ptr_ptr_slice_counterexample :
+/-- **nil `**[]T`**: `S{F: nil}` with `F **[]int64` is written as the empty array (the schema of
+`**[]T` is the plain array) and read back as a pointer to a pointer to the empty slice. The oracle
+identifies a nil pointer anywhere in a pointer chain to a slice or map with the chain to the empty
+collection (before this was found it did so for `*[]T` only and expected `F == nil` back). -/
+theorem nil_ptr_ptr_slice :
     toAvro env (omits env) 10 cPP (.struct [.ptr none]) = some (.record [.array []]) ∧
     ofAvro env 10 cPP (.record [.array []]) (Codec.zero env cPP)
       = .ok (.struct [.ptr (some (.ptr (some (.slice []))))]) ∧
     normCodec env 10 cPP (.struct [.ptr none]) = .struct [.ptr (some (.ptr (some (.slice []))))] ∧
-    normSpecD 3 10 tPP false (.struct [.ptr none]) = .struct [.ptr none] ∧
+    normSpec 10 tPP false (.struct [.ptr none]) = .struct [.ptr (some (.ptr (some (.slice []))))] ∧
     normSpec 10 tPP false (.struct [.ptr (some (.ptr (some (.slice []))))])
       = .struct [.ptr (some (.ptr (some (.slice []))))] := by
   refine ⟨by rfl, by rfl, by rfl, by rfl, by rfl⟩
@@ -54,17 +56,16 @@ def cPPo : Codec :=
   .record [.ptr none] [.unionOne (.pointer (.pointer (.array (.int 64 false) false))) 1] [some 0]
 theorem cPPo_built : builtCodec tPPo = .ok cPPo := by rfl
 
-/-- **Finding (omitempty `**[]T`, inner nil)**: with `omitempty` the field schema is `["null", array]`;
+/-- **omitempty `**[]T`, inner nil**: with `omitempty` the field schema is `["null", array]`;
 `S{F: &nilPtr}` (outer pointer set, inner nil) is omitted (`PointerCodec.Omit` looks through the
-pointer chain), written as null and read back as `F == nil`. This is deviation D30, but the oracle's
-D30 clause (`normSpecD 3`) fires only when the inner value *normalises* to a nil pointer, and a nil
-`*[]T` normalises to pointer-to-empty: the oracle expects `&&[]int64{}`. -/
-theorem omitempty_ptr_ptr_slice_counterexample :
+pointer chain), written as null and read back as `F == nil`. Both normalise to `&&[]int64{}`
+(the D30 clause is not involved: it is restricted to chains that do not end in a slice or map). -/
+theorem omitempty_ptr_ptr_slice :
     toAvro env (omits env) 10 cPPo (.struct [.ptr (some (.ptr none))]) = some (.record [.union 0 .null]) ∧
     ofAvro env 10 cPPo (.record [.union 0 .null]) (Codec.zero env cPPo) = .ok (.struct [.ptr none]) ∧
     normCodec env 10 cPPo (.struct [.ptr (some (.ptr none))]) = .struct [.ptr none] ∧
-    normSpec 10 tPPo false (.struct [.ptr none]) = .struct [.ptr none] ∧
-    normSpecD 3 10 tPPo false (.struct [.ptr (some (.ptr none))])
+    normSpec 10 tPPo false (.struct [.ptr none]) = .struct [.ptr (some (.ptr (some (.slice []))))] ∧
+    normSpec 10 tPPo false (.struct [.ptr (some (.ptr none))])
       = .struct [.ptr (some (.ptr (some (.slice []))))] := by
   refine ⟨by rfl, by rfl, by rfl, by rfl, by rfl⟩
 
@@ -76,18 +77,140 @@ theorem cTime_built : builtCodec tTime = .ok cTime := by rfl
 /-- the zero instant (0001-01-01T00:00:00Z) shown in the zone UTC+1: `IsZero()` holds -/
 def zeroPlus1 : TimeVal := ⟨-62135596800, 0, 3600⟩
 
-/-- **Finding (zero instant in a non-UTC zone)**: the schema of `time.Time` is `["null","string"]` and
-the codec omits a time exactly when `IsZero()`, which ignores the zone. `time.Time{}.In(UTC+1)` is
-written as null and read back as `time.Time{}` (UTC): same instant, different UTC offset, so the
-oracle's "times compare by instant and UTC offset" (`normSpecD` leaves times untouched) fails. -/
+/-- **Known finding D32 (zero instant in a non-UTC zone)**: the schema of `time.Time` is
+`["null","string"]` and the codec omits a time exactly when `IsZero()`, which ignores the zone.
+`time.Time{}.In(UTC+1)` is written as null and read back as `time.Time{}` (UTC): same instant,
+different UTC offset, so "times compare by instant and UTC offset" fails for the documented
+normalisations (`normSpec`); bit 2 of `dev` records the deviation. -/
 theorem zero_time_offset_counterexample :
     toAvro env (omits env) 10 cTime (.struct [.time zeroPlus1]) = some (.record [.union 0 .null]) ∧
     ofAvro env 10 cTime (.record [.union 0 .null]) (Codec.zero env cTime) = .ok (.struct [.time TimeVal.zero]) ∧
     normCodec env 10 cTime (.struct [.time zeroPlus1]) = .struct [.time TimeVal.zero] ∧
+    normSpec 10 tTime false (.struct [.time zeroPlus1]) = .struct [.time zeroPlus1] ∧
     normSpecD 3 10 tTime false (.struct [.time zeroPlus1]) = .struct [.time zeroPlus1] ∧
+    normSpecD 4 10 tTime false (.struct [.time zeroPlus1]) = .struct [.time TimeVal.zero] ∧
     zeroPlus1 ≠ TimeVal.zero := by
-  refine ⟨by rfl, by rfl, by rfl, by rfl, by decide⟩
+  refine ⟨by rfl, by rfl, by rfl, by rfl, by rfl, by rfl, by decide⟩
 
 end
+
+/-! ## Agreement on a fragment
+
+### the codec of a Go type, written directly -/
+
+/-- the generated schema of the type is a nullable union already -/
+def unionTyped : GoType → Bool
+  | .time | .nullT _ => true
+  | .ptr e => !e.collChain
+  | _ => false
+
+/-- `buildUnionCodec` for `["null", s]` around the codec of `s` -/
+def wrapU : Codec → Codec
+  | .string o => .unionNullString o 1
+  | c => .unionOne c 1
+
+def allSome {α : Type} : List (Option α) → Option (List α)
+  | [] => some []
+  | none :: _ => none
+  | some a :: r => (allSome r).map (a :: ·)
+
+def nodupB : List String → Bool
+  | [] => true
+  | a :: r => !r.contains a && nodupB r
+
+/-- every field is encoded (exported, not named "-") and the Avro names are pairwise distinct -/
+def structOk (fs : List GoField) : Bool :=
+  (fs.map nameForField).all (· != "-") && nodupB (fs.map nameForField)
+
+mutual
+/-- the codec for the non-union part of the generated schema of `T`
+(`buildCodec u (some T) oe` with `u` the schema of `T` without its nullable wrapper).
+The fragment: bool, int16/32/64, float32/64, string, `[]byte`, slices, string-keyed maps, pointers,
+structs all of whose fields are encoded under distinct names, `time.Time`, `null.*`. -/
+def bareCodec : Nat → GoType → Bool → Option Codec
+  | 0, _, _ => none
+  | n + 1, T, oe =>
+    match T with
+    | .bool => some (.bool oe)
+    | .int w => if w = 16 ∨ w = 32 ∨ w = 64 then some (.int w oe) else none
+    | .float32 => some (.f32double oe)
+    | .float64 => some (.double oe)
+    | .string => some (.string oe)
+    | .slice e =>
+      if e matches .uint 8 then some (.bytes oe)
+      else (fieldCodec n e false).map (.array · oe)
+    | .map k v => if k matches .string then (fieldCodec n v false).map (.map · oe) else none
+    | .ptr e => (bareCodec n e false).map .pointer
+    | .struct _ _ fs =>
+      if structOk fs then
+        (allSome (fs.map fun f => fieldCodec n f.type (omitEmptyTag f.jsonTag))).map fun cs =>
+          .record (zeroFields fs) cs ((List.range fs.length).map some)
+      else none
+    | .time => some .timeString
+    | .nullT k => some (.nullw (match k with | .float => .double | k => k))
+    | _ => none
+
+/-- the codec for a struct field (or slice element, map value: `oe = false`) of type `T`:
+`buildCodec (omitWrap oe (schema of T)) (some T) oe` -/
+def fieldCodec : Nat → GoType → Bool → Option Codec
+  | 0, _, _ => none
+  | n + 1, T, oe =>
+    if unionTyped T then (bareCodec n T oe).map wrapU
+    else if oe then (bareCodec n T true).map wrapU
+    else bareCodec n T false
+end
+
+/-! the tie to the builder model, on a type that exercises every case of the fragment -/
+
+def tBig : GoType :=
+  .struct "Big" "example.com/pkg" [
+    .mk "A" true "" "" .bool, .mk "B" true "b,omitempty" "" (.int 32), .mk "C" true ",omitempty" "" .float32,
+    .mk "D" true "" "" .float64, .mk "E" true ",omitempty" "" .string, .mk "F" true "" "" (.slice (.uint 8)),
+    .mk "G" true ",omitempty" "" (.slice (.ptr .string)), .mk "H" true "" "" (.map .string (.slice (.int 64))),
+    .mk "I" true "" "" (.ptr (.slice .float64)), .mk "J" true ",omitempty" "" (.ptr (.map .string .bool)),
+    .mk "K" true "" "" (.ptr (.ptr (.int 16))), .mk "L" true "" "" .time, .mk "M" true ",omitempty" "" (.ptr .time),
+    .mk "N" true "" "" (.nullT .float), .mk "O" true "" "" (.ptr (.nullT .string)),
+    .mk "P" true ",omitempty" "" (.struct "In" "main" [.mk "X" true "" "" (.ptr (.ptr (.ptr .string)))]),
+    .mk "Q" true ",omitempty" "" (.ptr (.ptr (.slice .time))), .mk "R" true "" "" (.ptr (.ptr (.map .string (.nullT .time))))]
+
+example : (fieldCodec 20 tBig false).map Except.ok = some (builtCodec tBig) := by rfl
+
+/-! ### well-typed values of the fragment -/
+
+def TypedFields (P : GoType → GoVal → Prop) : List GoField → List GoVal → Prop
+  | [], [] => True
+  | f :: fs, g :: gs => P f.type g ∧ TypedFields P fs gs
+  | _, _ => False
+
+def nullInnerTyped : NullKind → GoVal → Prop
+  | .int, .int _ => True
+  | .bool, .bool _ => True
+  | .double, .f64 _ => True
+  | .float, .f64 _ => True
+  | .string, .str _ => True
+  | .time, .time t => t.Printable
+  | _, _ => False
+
+/-- `Typed M T g`: `g` is a value of Go type `T` (the budget `M` bounds its depth). Beyond shape:
+a float32 is not a signalling NaN (the float32→float64→float32 conversions would quiet it), a map has
+one value per key, times are printable (RFC 3339 can express them). -/
+def Typed : Nat → GoType → GoVal → Prop
+  | 0, _, _ => False
+  | n + 1, T, g =>
+    match T, g with
+    | .bool, .bool _ => True
+    | .int _, .int _ => True
+    | .float32, .f32 b => ¬ SNaN32 b
+    | .float64, .f64 _ => True
+    | .string, .str _ => True
+    | .slice e, .bytes _ => (e matches .uint 8) = true
+    | .slice e, .slice items => (e matches .uint 8) = false ∧ ∀ x ∈ items, Typed n e x
+    | .map _ v, .map _ ks vs => ks.length = vs.length ∧ ∀ x ∈ vs, Typed n v x
+    | .ptr _, .ptr none => True
+    | .ptr e, .ptr (some x) => Typed n e x
+    | .struct _ _ fs, .struct gs => TypedFields (Typed n) fs gs
+    | .time, .time t => t.Printable
+    | .nullT k, .nullw _ inner => nullInnerTyped k inner
+    | _, _ => False
 
 end Avro
